@@ -71,6 +71,24 @@ Proof.
   repeat (constructor; [first [left; vm_compute; reflexivity|right; vm_compute; reflexivity]|]). constructor.
 Qed.
 
+(* KNOWN FINDING (KNOWN_FINDINGS.json): what a stop can lose is the ADVANCE of the ratchet.  Model
+   witness, replayed on the real store by the scripted workload of the harness: window 1, a stop after
+   the first write of an open; the retried message opens by identifier, nothing more is written, and
+   the next message, which opens in the run without the stop, never opens.  The statement of C10
+   (what was opened / openable stays so) is not contradicted: it does not speak of future openability. *)
+Theorem C10_advance_not_crash_safe_refuted :
+  let W := 1%nat in
+  let s0 := apply_muts empty_store (op_muts W empty_store (RReg 1 1)) in
+  let ms := op_muts W s0 (ROpen 1 2 100) in
+  let crash := apply_muts s0 (firstn 1 ms) in
+  let s1 := apply_muts crash (op_muts W crash (ROpen 1 2 100)) in
+  length ms = 4%nat /\
+  op_out W crash (ROpen 1 2 100) = OOk 100 /\ op_muts W crash (ROpen 1 2 100) = [] /\
+  op_out W s1 (ROpen 1 3 101) = OFail /\
+  op_out W (apply_muts s0 ms) (ROpen 1 3 101) = OOk 101.
+Proof. exact advance_lost_after_crash. Qed.
+
+Print Assumptions C10_advance_not_crash_safe_refuted.
 Print Assumptions C10_crash_safe.
 Print Assumptions C10_exec_safe.
 Print Assumptions C10_holds_opens.
